@@ -62,21 +62,7 @@ def run(ctx, rep):
                 rep.ob("addend-once", "lookup-uses-offset", any(c.endswith("::value") for c in o), "find_string is given the symbol value (+addend for section symbols)", g.file, t["l"])
 
     _lookup_both_tables(rep, P, F)
-    fs = F.hir_body(SM + "find_string")
-    if fs is None:
-        rep.lost("fallback-distance", SM + "find_string")
-    else:
-        lp = None
-        for x in hirq.loops(fs["body"]):
-            lp = x
-        if lp is None:
-            rep.lost("fallback-distance", "search loop in find_string")
-        else:
-            sk = hirq.skeleton(lp, lambda n: None).replace("local:", "")
-            sk_all = " ".join(hirq.skeleton(x, lambda n: None).replace("local:", "") for x in fold.walk(lp) if x.get("e") in ("bin", "call"))
-            rep.ob("fallback-distance", "searches-backwards", "(input_offset - i)" in sk_all, "the loop looks up input_offset - i", fs["file"], fs["line"])
-            rep.ob("fallback-distance", "adds-same-distance", "BucketOffset((string_offset.0 + (i as u32)))" in sk_all or "(string_offset.0 + (i as u32))" in sk_all,
-                   "the result is the found string's offset + i (the reference keeps pointing i bytes into the string)", fs["file"], fs["line"])
+    _fallback_distance(rep, P, F)
 
     a = F.hir_body(SM + "MergeStringsSectionBucket::add_string")
     if a is None:
@@ -205,3 +191,61 @@ def _lookup_both_tables(rep, P, F):
         rep.ob("lookup-both-tables", f"lookup#{n}", ok,
                why if ok else why + " - a string whose start spilled to the overflow table is not found; the backward search then attributes the reference to an earlier string "
                "and the pointer lands on unrelated bytes", b.file, t["l"])
+
+
+def _fallback_distance(rep, P, F):
+    """Structural (MIR) form: no dependence on the names of locals."""
+    b = F.body(SM + "find_string")
+    if b is None:
+        rep.lost("fallback-distance", SM + "find_string")
+        return
+    flow = P.flow(b)
+    nexts = [bi for bi, t in flow.calls() if (callee_key(t["f"]) or "").endswith("::next")]
+    if len(nexts) != 1:
+        rep.lost("fallback-distance", f"search loop in find_string ({len(nexts)} iterator steps)")
+        return
+    nx = nexts[0]
+    # input_offset - i : a Sub whose left operand is a u64 parameter and whose right operand is the loop variable
+    subs = []
+    for bi, blk in enumerate(b.blocks):
+        if blk.get("cleanup"):
+            continue
+        for st in blk["s"]:
+            if st["k"] == "assign" and st["rv"]["k"] == "bin" and st["rv"]["op"] in ("Sub", "SubWithOverflow", "SubUnchecked"):
+                la, lb = flow.origins(st["rv"]["a"]), flow.origins(st["rv"]["b"])
+                if any(x[0] == "param" and b.locals[x[1]].strip() == "u64" for x in la) and any(x[0] == "call" and x[2] == nx for x in lb):
+                    subs.append((bi, st))
+    rep.ob("fallback-distance", "searches-backwards", len(subs) >= 1, "the loop computes <u64 parameter> - <loop variable> (the offset i bytes before the reference)", b.file, subs[0][1]["l"] if subs else b.line)
+    keyed = False
+    sub_blocks = {bi for bi, _st in subs}
+    for bi, t in flow.calls():
+        if (callee_key(t["f"]) or "").endswith("OffsetMap::get"):
+            # key = (start + (offset - i)).0 : the Add impl call whose argument is the Sub above
+            for x in flow.origins(t["args"][-1]):
+                if x[0] == "call" and (x[1] or "").endswith("::add"):
+                    for a in b.blocks[x[2]]["t"]["args"]:
+                        oo = flow.origins(a)
+                        if any(y[0] == "op" and y[1].startswith("Sub") and y[2] in sub_blocks for y in oo):
+                            keyed = True
+                if x[0] == "op" and x[1].startswith("Sub") and x[2] in sub_blocks:
+                    keyed = True
+    rep.ob("fallback-distance", "lookup-uses-difference", keyed, "the backward lookup is keyed by that difference (plus the section's start offset)", b.file, b.line)
+    # the result: BucketOffset(found.0 + i)
+    res_ok = False
+    line = b.line
+    for bi, blk in enumerate(b.blocks):
+        if blk.get("cleanup"):
+            continue
+        for st in blk["s"]:
+            if st["k"] == "assign" and st["rv"]["k"] == "agg" and str(st["rv"].get("adt") or "").endswith("BucketOffset") and st["rv"]["ops"]:
+                o = flow.origins(st["rv"]["ops"][0])
+                has_i = any(x[0] == "call" and x[2] == nx for x in o)
+                has_add = any(x[0] == "op" and x[1].startswith("Add") for x in o)
+                has_sub = any(x[0] == "op" and (x[1].startswith("Sub") or x[1].startswith("Mul") or x[1].startswith("Sh")) for x in o)
+                consts = [x for x in o if x[0] == "const"]
+                from_lookup = any(x[0] == "call" and ((x[1] or "").endswith("OffsetMap::get") or (x[1] or "").endswith("Option::or_else")) for x in o)
+                has_sub = has_sub or bool(consts)
+                if has_i and has_add and from_lookup and not has_sub:
+                    res_ok = True
+                    line = st.get("l")
+    rep.ob("fallback-distance", "adds-same-distance", res_ok, "the result is BucketOffset(found string's offset + the same loop variable): the reference keeps pointing i bytes into the string", b.file, line)
